@@ -83,7 +83,16 @@ Benign(cl, a, R) ==
 
 F17Variants == IF Thorough THEN {<<1, 0>>, <<1, 1>>, <<2, 2>>, <<5, 4>>} ELSE {<<1, 0>>, <<2, 2>>}
 
+\* benign histories on ONE client: replies with different content; what an earlier call returned must stay what it was
+HistArgs(fc, k) == Args(fc, 1, 10 * k, 9, <<>>, <<>>, 0, 600 + k)
+HistReply(cl, fc, k) ==
+    RespADU(FramingOf(cl), 600 + k, Resp(fc, 1, 0, 0, IF fc = 1 THEN <<(37 * k) % 256, k % 2>> ELSE [i \in 1..18 |-> (i * k * 7) % 256], <<>>, 0, <<>>))
+HistCases(cl) ==
+    {[op |-> "seq", seq |-> [k \in 1..3 |-> Exch(cl, HistArgs(fc, k), HistReply(cl, fc, k),
+                                                   <<Chunk(4), Chunk(Len(HistReply(cl, fc, k)) - 4)>>, "none", 0, 0)]] : fc \in {1, 3}}
+
 C07Cases(z) ==
+    UNION {HistCases(cl) : cl \in Clients} \cup
     UNION {Benign(cl, a, ReplyTo(FramingOf(cl), a, v)) : cl \in Clients, a \in ReqShapes("s"), v \in F17Variants}
     \cup UNION {Benign(cl, a, ReplyTo(FramingOf(cl), a, <<2, 2>>)) : cl \in Clients, a \in {x \in ReqShapes("m") : x.fc \in {1, 2, 3, 4, 23}}}
     \cup UNION {Benign(cl, a, ReplyTo(FramingOf(cl), a, <<100, 100>>)) : cl \in Clients, a \in {x \in ReqShapes("l") : x.fc \in (IF Thorough THEN {1, 3, 17, 23} ELSE {3, 17})}}
@@ -172,9 +181,20 @@ C12Cases(z) ==
 (* C19: a script without hooks followed by the same script with hooks *)
 Pair(x) == <<x, [x EXCEPT !.hooks = 1, !.pair = 1]>>
 HookBase(z) ==
-    {x \in C07Cases(0) : Len(x.script) <= (IF Thorough THEN 6 ELSE 4) /\ (x.req.fc \in {1, 3, 5, 16, 17, 23} \/ Thorough)}
+    {x \in {y \in C07Cases(0) : y.op = "exch"} : Len(x.script) <= (IF Thorough THEN 6 ELSE 4) /\ (x.req.fc \in {1, 3, 5, 16, 17, 23} \/ Thorough)}
     \cup {x \in {y \in C08Cases(0) : y.op = "exch"} : x.req.fc \in {3, 5, 17} \/ Thorough}
-C19Cases(z) == {[op |-> "pair", a |-> x, b |-> [x EXCEPT !.hooks = 1, !.pair = 1]] : x \in HookBase(0)}
+\* the configurable client (parser observable): benign scripts, EOF before / at completion, I/O error
+GenArgs == Args(3, 1, 10, 2, <<>>, <<>>, 0, 4660)
+GenBase(z) ==
+    LET R == ReplyTo("tcp", GenArgs, <<1, 0>>) L == Len(R) IN
+    {Exch("tcpgen", GenArgs, R, scf[1], scf[2], 0, 0) :
+        scf \in {<<ChunkScript(L, {}), "none">>, <<ChunkScript(L, {3, 9}), "none">>, <<WithEmpties(ChunkScript(L, {5}), "deadline", 1), "none">>}
+                \cup {<<PrefixScript(p, 0) \o <<Term("eof")>>, "eof">> : p \in 0..(L - 1)}
+                \cup {<<ChunkScript(L, {4}) \o <<Term("eof")>>, "none">>}
+                \cup {<<PrefixScript(p, 2) \o <<Term("ioerr")>>, "ioerr">> : p \in {0, 3, 8}}}
+C19Cases(z) == {[op |-> "pair", a |-> x, b |-> [x EXCEPT !.hooks = 1, !.pair = 1]] : x \in HookBase(0) \cup GenBase(0)}
+               \cup {[op |-> "seq", seq |-> [i \in 1..Len(q.seq) |-> [q.seq[i] EXCEPT !.hooks = 1]]] :
+                        q \in {y \in C08Cases(0) : y.op = "seq"} \cup UNION {HistCases(cl) : cl \in Clients}}
 
 CaseSet(z) == CASE Set = "c07" -> C07Cases(0) [] Set = "c08" -> C08Cases(0) [] Set = "c12" -> C12Cases(0) [] Set = "c19" -> C19Cases(0)
 
@@ -182,7 +202,7 @@ Init == c \in CaseSet(0)
 Next == UNCHANGED c
 \* the replies the generator builds are what the exchange specification calls proper replies
 SelfConsistent ==
-    c.op = "exch" /\ Set = "c07" /\ c.fault = "none" =>
+    Set = "c07" /\ c.op = "exch" /\ c.fault = "none" =>
         LET fr == FramingOf(c.client) IN ProperNormal(fr, ReqOfArgs(c.req), c.reply) \/ ProperException(fr, c.reply)
 Emit == PrintT(<<"CASE", ToJson(c)>>)
 =============================================================================
